@@ -1,7 +1,7 @@
 (** * C08: === and !== compare primitives by type and value; containers are never equal.
     Statements only. *)
 From Coq Require Import List Bool.
-From JL Require Import Base.Json Base.Monad Model.JsOp Model.Ops Spec.Specs Proofs.OpsBasic Proofs.Floats Proofs.Extra Proofs.Compare.
+From JL Require Import Base.Json Base.Monad Model.JsOp Model.Ops Spec.Specs Proofs.OpsBasic Proofs.Floats Proofs.Extra Proofs.Compare Proofs.ModelLaws.
 Import ListNotations.
 
 (** the operator calls strict_eq on two distinct slots of a freshly collected operand vector, so
@@ -37,3 +37,12 @@ Print Assumptions C08_symmetric.
 Theorem C08_strict_implies_abstract : forall a b, es_strict_eq a b = true -> es_eq a b = true.
 Proof. exact strict_implies_abstract. Qed.
 Print Assumptions C08_strict_implies_abstract.
+
+(** the same two laws stated on the code's own helpers (Proofs/ModelLaws.v) *)
+Theorem C08_code_symmetric : forall a b, strict_eq false a b = strict_eq false b a.
+Proof. exact code_strict_eq_sym. Qed.
+Print Assumptions C08_code_symmetric.
+
+Theorem C08_code_strict_implies_abstract : forall a b, strict_eq false a b = true -> abstract_eq a b = true.
+Proof. exact code_strict_implies_abstract. Qed.
+Print Assumptions C08_code_strict_implies_abstract.
